@@ -3,6 +3,8 @@
   Property theorems only; helper lemmas live in DnsModel/Lemmas.
 -/
 import DnsModel.Lemmas.SectorTotal
+import DnsModel.Tie.Name
+import DnsModel.Tie.Sector
 namespace Dns.C01
 open Dns Res Sector
 
@@ -96,5 +98,47 @@ example : parse [0,0,0,0, 0,0, 0,0, 0,0, 0,0] = .err .invalidPacket := by decide
 example : parse [0,0,0,0, 0,1, 0,0, 0,0, 0,0] = .err .internalError := by decide
 example : parse [0,0,0,0, 0,1, 0,0, 0,0, 0,0, 0xc0,12, 0,1, 0,1] = .err .invalidName := by decide
 example : parse [0,0,0,0, 0,1, 0,0, 0,0, 0,0, 1,97,0, 0,1, 0,3] = .err .unsupportedClass := by decide
+
+
+/-! ### The same statements about the functions translated from the current source text
+
+`Tr.Name.*` and `Tr.Sector.*` (Generated/TrName.lean, Generated/TrSector.lean) are written by rs2lean.py from
+/repo/src/compress.rs and /repo/src/dns_sector.rs on every run; `Tie/Name.lean` and `Tie/Sector.lean` prove
+each translated function equal to the model function used above. -/
+
+theorem source_check_compressed_name_total (p : Bytes) (off : Nat) :
+    (∃ n, Tr.Name.check_compressed_name p off = .ok n) ∨ (∃ e, Tr.Name.check_compressed_name p off = .err e) := by
+  rw [Tie.check_compressed_name_eq]; exact checkCompressedName_total p off
+
+theorem source_check_uncompressed_name_total (p : Bytes) (off : Nat) :
+    (∃ n, Tr.Name.check_uncompressed_name p off = .ok n) ∨ (∃ e, Tr.Name.check_uncompressed_name p off = .err e) := by
+  rw [Tie.check_uncompressed_name_eq]; exact checkUncompressedName_total p off
+
+theorem source_check_compressed_name_in_bounds (p : Bytes) (off e : Nat)
+    (h : Tr.Name.check_compressed_name p off = .ok e) : off < e ∧ e ≤ p.length := by
+  rw [Tie.check_compressed_name_eq] at h; exact checkCompressedName_in_bounds p off e h
+
+/-- the four public cursor primitives of the source are the model's (`cursorStep` above runs the model's) -/
+theorem source_cursor_tie (p : Bytes) (s : Sector) (n : Nat) :
+    Tr.Sector.set_offset p s.offset n = (Sector.setOffset p s n >>= fun r => Res.ok (r.2, r.1.offset)) ∧
+    Tr.Sector.increment_offset p s.offset n = (Sector.incrementOffset p s n >>= fun r => Res.ok (r.2, r.1.offset)) ∧
+    Tr.Sector.rr_rdlen p s.offset = Sector.rrRdlen p s ∧
+    Tr.Sector.edns_rr_rdlen p s.offset s.ednsEnd = Sector.ednsRrRdlen p s :=
+  ⟨Tie.set_offset_eq p s n, Tie.increment_offset_eq p s n, Tie.rr_rdlen_eq p s, Tie.edns_rr_rdlen_eq p s⟩
+
+/-- and the loaders `parse()` is built from -/
+theorem source_loader_tie (p : Bytes) (s : Sector) (n : Nat) :
+    Tr.Sector.ensure_remaining_len p s.offset n = Sector.ensureRemainingLen p s n ∧
+    Tr.Sector.u8_load p s.offset n = Sector.u8Load p s n ∧ Tr.Sector.be16_load p s.offset n = Sector.be16Load p s n ∧
+    Tr.Sector.rr_type p s.offset = Sector.rrType p s ∧ Tr.Sector.rr_class p s.offset = Sector.rrClass p s ∧
+    Tr.Sector.qdcount p = be16 p 4 ∧ Tr.Sector.ancount p = be16 p 6 ∧ Tr.Sector.nscount p = be16 p 8 ∧
+    Tr.Sector.arcount p = be16 p 10 ∧
+    Tr.Sector.is_response p = (be16 p DNS_FLAGS_OFFSET >>= fun f => Res.ok (f &&& DNS_FLAG_QR == DNS_FLAG_QR)) :=
+  ⟨Tie.ensure_remaining_len_eq p s n, Tie.u8_load_eq p s n, Tie.be16_load_eq p s n, Tie.rr_type_eq p s,
+   Tie.rr_class_eq p s, Tie.s_qdcount_eq p, Tie.s_ancount_eq p, Tie.s_nscount_eq p, Tie.s_arcount_eq p,
+   Tie.s_is_response_eq p⟩
+
+example : Tr.Name.check_compressed_name [3, 119, 119, 119, 0, 0xc0, 0] 5 = .ok 7 := by decide
+example : Tr.Name.check_uncompressed_name [3, 119, 119, 119, 0, 0xc0, 0] 5 = .err .invalidName := by decide
 
 end Dns.C01
